@@ -38,7 +38,6 @@ from __future__ import annotations
 
 import copy
 import json
-import os
 import shutil
 import threading
 import time
@@ -62,7 +61,6 @@ NEGS = {  # wrong variant -> the invariants / action properties one of which TLC
     'doublejson': ('SavedFileWellFormed',)}
 NO_NAME = {'stem': '', 'k': 0}
 NO_OUT = {'asked': dict(NO_NAME), 'file': dict(NO_NAME), 'doc': []}
-SCRATCH = Path('/tmp/grow-masking')
 
 
 class Abort(Exception):
@@ -219,7 +217,7 @@ class Session:
         self.before = set(_widget_registry())
         self.tool = None
         self.art = {k: [] for k in KINDS}       # persisted artists per kind in drawing order
-        self.known = set()
+        self.known = {}                         # id -> artist (kept alive, so ids are not reused)
         self.what = 'MaskingTool(data)'
         self.context = context                  # appended to the finding keys of a probe
         try:
@@ -274,7 +272,7 @@ class Session:
         for k in KINDS:
             for child in self.ctl[k]._tool.children:
                 if id(child) not in self.known and hasattr(child, 'nodeid'):
-                    self.known.add(id(child))
+                    self.known[id(child)] = child
                     self.art[k].append(child)
 
     # ---------------------------------------------------------------- gestures
@@ -481,6 +479,11 @@ class Session:
             names = [n for n in out.masks.keys() if n not in user]
             masks = sorted(self._full(out.masks[n], sizes) for n in names)
             union = sorted(set().union(*masks)) if masks else []
+            # what the figure currently shows (plopp keeps the data last drawn on its artist)
+            shown, arts = union, list(tool.fig.artists.values())
+            if len(arts) == 1 and isinstance(getattr(arts[0], '_data', None), sc.DataArray):
+                d = arts[0]._data
+                shown = sorted(set().union(*[self._full(d.masks[n], dict(d.sizes)) for n in d.masks.keys() if n not in user]))
             intact = bool(sc.identical(self.data, self.snapshot)) and sizes == dict(self.snapshot.sizes)
             intact = intact and bool(sc.identical(out.data, self.snapshot.data))
             for dim in out.dims:
@@ -503,7 +506,7 @@ class Session:
             pressed = [k for k in KINDS if self.ctl[k].value]
             connected = [k for k in KINDS if 'button_press_event' in self.ctl[k]._tool._connections]
             obs = {'active': pressed, 'enabled': [k for k in KINDS if not self.ctl[k].disabled], 'visible': visible,
-                   'save': not tool.save_button.disabled, 'doc': doc, 'masks': masks, 'union': union, 'intact': bool(intact),
+                   'save': not tool.save_button.disabled, 'doc': doc, 'masks': masks, 'union': union, 'shown': shown, 'intact': bool(intact),
                    'out': {k: saved[k] for k in ('asked', 'file', 'doc')} if saved else copy.deepcopy(NO_OUT)}
         except Exception as e:  # noqa: BLE001
             self.fail(e)
@@ -540,14 +543,16 @@ def _expected(e, nd):
     return {'active': [k for k in KINDS if k in e['active']],
             'enabled': [k for k in KINDS if nd == 2 or k == 'vspan'],
             'visible': 'yes' if e['visible'] else 'no', 'save': e['save'], 'doc': e['doc'],
-            'masks': sorted(sorted(m) for m in e['masks']), 'union': sorted(e['union']), 'intact': True,
+            'masks': sorted(sorted(m) for m in e['masks']), 'union': sorted(e['union']), 'shown': sorted(e['union']),
+            'intact': True,
             'out': e['out']}
 
 
 DIFFS = (('active', 'the pressed tool buttons differ'), ('enabled', 'the enabled tool buttons differ'),
          ('save', 'the save button is enabled / disabled wrongly'), ('visible', 'the shapes are shown / hidden wrongly'),
          ('doc', 'get_masks() differs'), ('masks', 'the masks applied by masking_node() differ'),
-         ('union', 'the union of the applied masks differs'), ('intact', 'the displayed data or the input changed'),
+         ('union', 'the union of the applied masks differs'), ('shown', 'the figure shows other masks than masking_node() applies'),
+         ('intact', 'the displayed data or the input changed'),
          ('out', 'the saved file differs'))
 
 
@@ -754,13 +759,27 @@ def probes(ctx, rng, scratch, tid0):
     return events, about
 
 
-def _corrupt(events, tid0):
-    """Copies of a recorded session with one observation falsified each (the judge must reject exactly those)."""
-    sess = {}
-    for e in events:
-        sess.setdefault(e['tid'], []).append(e)
+def spec_session(beh, tid):
+    """A simulated behaviour of the specification written as a recorded session (observations = what TLC expects)."""
+    _, nd, nx, ny, text = beh
+    steps = json.loads(text)
+    first = _expected({'active': [], 'visible': True, 'save': False, 'doc': [], 'masks': [], 'union': [], 'out': NO_OUT}, nd)
+    events = [{'ev': 'new', 'tid': tid, 'nx': nx, 'ny': ny, 'nd': nd, 'obs': first}]
+    for st in steps:
+        a = {k: v for k, v in st['a'].items() if k not in ('h', 'usesx', 'usesy')}
+        events.append({'ev': 'step', 'tid': tid, 'a': a, 'obs': _expected(st['e'], nd)})
+    return events
+
+
+def _corrupt(cands, tid0):
+    """Sessions generated by the specification itself: unchanged (the judge must accept every event: judge and state
+    machine agree) and with one observation falsified each (the judge must reject exactly that event)."""
     out, marks = [], []
-    cands = [s for s in sess.values() if len(s) > 20]
+    for n, s in enumerate(cands):
+        c = copy.deepcopy(s)
+        for e in c:
+            e['tid'] = tid0 + 500 + n
+        out += c
 
     def copy_of(s, tid):
         c = copy.deepcopy(s)
@@ -805,7 +824,6 @@ def run(ctx):
 
     prev_backend = matplotlib.get_backend()
     prev_rc = matplotlib.rcParams.copy()
-    SCRATCH.mkdir(parents=True, exist_ok=True)
     scratch = Path(ctx.tmp) / 'growth-masking'
     scratch.mkdir(parents=True, exist_ok=True)
     par = Par(ctx)
@@ -823,7 +841,6 @@ def run(ctx):
             except Exception:  # noqa: BLE001
                 pass
             shutil.rmtree(scratch, ignore_errors=True)
-            shutil.rmtree(SCRATCH, ignore_errors=True)
 
 
 def _run(ctx, par, scratch):
@@ -841,7 +858,8 @@ def _run(ctx, par, scratch):
                       extra=['-seed', str(ctx.seed * 2 + d + 50)], timeout=900) for d, n in ((2, n2), (1, n1))]
     # ---- (i) models and negative controls in the background
     sfx = '_thorough' if th else ''
-    models = [par.start(SPEC, f'Growth_MC_MaskingTool{part}{sfx}.cfg', workers=2, timeout=1500) for part in ('', '_order', '_1d')]
+    models = [par.start(SPEC, f'Growth_MC_MaskingTool{part}{sfx}.cfg', workers=w if th else 2, timeout=1500)
+              for part, w in (('', 3), ('_order', 2), ('_1d', 1))]
     bugs = sorted(NEGS)
     negs = {b: par.start(SPEC, f'Growth_Neg_MaskingTool_{b}.cfg', workers=1, expect_error=True, timeout=300)
             for b in (bugs if th else bugs[ctx.seed % 3::3])}
@@ -858,17 +876,11 @@ def _run(ctx, par, scratch):
     pev, about = probes(ctx, rng, scratch, 1000)
     events += pev
     n_real = len(events)
-    bad, marks = _corrupt(events, 2000)
-    marks = [(n_real + i + 1, tid) for i, tid in marks]
-    events += bad
-    tf = SCRATCH / f'trace-{os.getpid()}.ndjson'
-    write_ndjson(tf, events)
-    judge = par.start('masking/Growth_Trace_MaskingTool.tla', None, workers=1, env={'TRACE_FILE': str(tf)}, timeout=900)
     ctx.extra['growth_masking_session_events'] = n_real
     ctx.extra['growth_masking_sessions_s'] = round(time.time() - tpy, 1)
     ctx.extra['growth_masking_sessions'] = nsess + len(about)
 
-    # ---- (ii) spec -> code
+    # ---- (ii) spec -> code: the simulated behaviours
     behs = []
     for job, want in zip(sims, (n2, n1), strict=True):
         res = par.join(job)
@@ -881,6 +893,14 @@ def _run(ctx, par, scratch):
         if len(got) < want // 2 + 1:
             raise MachineryError(f'only {len(got)} of {want} simulated behaviours exported')
         behs += got[:want]
+    # the judge gets the recorded sessions, three behaviours of the specification as they are and falsified copies
+    cands = [spec_session(b, 0) for b in (behs[0], behs[1], behs[-1])]
+    bad, marks = _corrupt(cands, 2000)
+    marks = [(n_real + i + 1, tid) for i, tid in marks]
+    events += bad
+    tf = scratch / 'sessions.ndjson'
+    write_ndjson(tf, events)
+    judge = par.start('masking/Growth_Trace_MaskingTool.tla', None, workers=1, env={'TRACE_FILE': str(tf)}, timeout=900)
     steps, treplay = 0, time.time()
     ctx.extra['growth_masking_wait_for_simulation_s'] = round(time.time() - tpy - ctx.extra['growth_masking_sessions_s'], 1)
     for idx, b in enumerate(behs):
